@@ -127,8 +127,11 @@ def gen_op(rng, ctx):
         return {"op": "view_name", "pick": rng.random()}
     if r < 0.92:
         return {"op": "view_set", "pick": rng.random(), "value": rng.choice(["v1", "v2"])}
-    return {"op": "view_rename", "pick": rng.random(), "ns": rng.choice(NSS), "name": rng.choice(NAMES),
-            "by": rng.choice(["key", "parts"])}
+    if r < 0.985:
+        return {"op": "view_rename", "pick": rng.random(), "ns": rng.choice(NSS), "name": rng.choice(NAMES),
+                "by": rng.choice(["key", "parts"])}
+    # a rename that the attribute store refuses (not an XML name): an exception, and nothing has changed (seeded C11-8)
+    return {"op": "view_bad_rename", "pick": rng.random(), "part": "local_name", "to": rng.choice(["not a name", "a b", "1<2", "x y"])}
 
 
 def gen_ops(rng, ctx, length):
@@ -289,6 +292,27 @@ def run_impl(ctx, ops, other=None):
         target = node if op.get("via") == "node" else A
         res = None
         try:
+            if k == "view_bad_rename":
+                # not part of the model: the call must raise and leave everything as it was (check_state compares)
+                if views:
+                    i = int(op["pick"] * len(views)) % len(views)
+                    v, h = views[i], orc.held[i]
+                    if h is not None and h["live"]:
+                        before_names = sorted(map(tuple, A))
+                        try:
+                            setattr(v, op["part"], op["to"])
+                            raised = None
+                        except Exception as e:  # noqa: BLE001
+                            raised = type(e).__name__
+                        if raised is not None and sorted(map(tuple, A)) != before_names:
+                            problems.append({"why": f"a rename refused with {raised} changed the attributes", "op": o,
+                                             "before": before_names, "after": sorted(map(tuple, A))})
+                        if raised is None:
+                            raise common.ToolFailure(f"the attribute store accepted the name {op['to']!r}: the generator must offer names that are refused")
+                        check_state(o)
+                results.append(None)
+                resolved.append(None)
+                continue
             if k in ("view_value", "view_name", "view_set", "view_rename", "set_view"):
                 if not views:
                     results.append(None)
